@@ -56,7 +56,7 @@ CLAIMS = {
         "text": "Decides: deliberate and rag_once hand Plan() an op list that passed `ops[:min(turn cap, slice cap)]` with nothing appended afterwards and a leading unconditional Speak op; RequestRetrieve is built only under s_max < tau_low and the intent "
                 "follows the two-threshold cascade; run_turn refines at one non-loop site under requested_retrieve and max_rag_loops>=1 and rag_once retrieves once; speak/llm_speak return the first component of _truncate_to_tokens(text, max_tokens) on every path; "
                 "deliberate is effect-free; every operation the sanitiser applies to an untrusted value is behind an isinstance narrowing or try/except, constant-key subscripts follow a presence check; limits are the imported schema constants measured on the raw returned values and key sets equal the schema's. No reader of a per-slice budget tests it by truthiness or positivity (budget 0 binds).",
-        "note": "Not decided: threshold monotonicity as an input/output law; arbitrary LLM behaviour; whether a regex substitution of _sanitize_utterance can lengthen an utterance (UNDECIDED, listed); run_turn's empty-utterance placeholder returns the input text (by design, not claimed).",
+        "note": "Not decided: threshold monotonicity as an input/output law; arbitrary LLM behaviour; (the utterance filter's rules are decided since round 7: no replacement has more tokens than every match must touch); run_turn's empty-utterance placeholder returns the input text (by design, not claimed).",
     },
     "C20": {
         "technique": "static analysis: exception-escape over a frozen table of declared fail-soft call sites (lexical catch-all enclosure or total callee, handler-cannot-raise), handler neutrality w.r.t. canonical streams, handler fall-through and reachability of the final turn record; provenance of the state-stored block; record-field typing against engine dereferences; raise-after-first-live-write path check",
